@@ -142,6 +142,14 @@ func VF_Repo_UserDocument() {
 	vf.Assert(err == nil && o != nil && o["a"] == "other", "C17 another key's user document is untouched")
 	missing, err := r.GetRealSnapshot(ctx, "colB", "k1")
 	vf.Assert(err == nil && missing == nil, "C17 the same key in another collection is another document")
+	// collection names that differ in one character only are different collections
+	for _, pair := range [][2]string{{"pay$roll", "pay_roll"}, {"a.b", "a_b"}, {"Col", "col"}} {
+		vf.Assert(r.InsertRealSnapshot(ctx, pair[0], "k1", map[string]interface{}{"who": pair[0]}, 1) == nil, "C11 writing the user document succeeds")
+		vf.Assert(r.InsertRealSnapshot(ctx, pair[1], "k1", map[string]interface{}{"who": pair[1]}, 2) == nil, "C11 writing the user document succeeds")
+		x, e1 := r.GetRealSnapshot(ctx, pair[0], "k1")
+		y, e2 := r.GetRealSnapshot(ctx, pair[1], "k1")
+		vf.Assert(e1 == nil && e2 == nil && x != nil && y != nil && x["who"] == pair[0] && y["who"] == pair[1], "C17 the same key in two collections names two independent user documents")
+	}
 }
 
 // VF_Repo_Purge (C17): resetting a collection removes exactly the documents
